@@ -114,8 +114,23 @@ class Session:
             return False
 
 
+def subrecipes(r, heads, acc=None):
+    """all sub-recipes of r whose head is in `heads`"""
+    if acc is None:
+        acc = []
+    if isinstance(r, list):
+        if r and r[0] in heads:
+            acc.append(r)
+        for x in r[1:]:
+            if isinstance(x, list):
+                subrecipes(x, heads, acc)
+    return acc
+
+
 def run_program(case, backend=None):
     s = Session()
+    if case.get("share"):
+        s.V.pool = {}   # equal sub-recipes become one shared object; binary operators in augmented form
     if case["class"] == "history":
         solves = 0
         for step in case["steps"]:
@@ -174,7 +189,24 @@ def program_strategy():
             # literals near the (far from zero) domains so that comparisons are not all trivial
             lits = st.one_of(lits, st.builds(lambda v, dv: v + dv, st.sampled_from(pool), st.integers(-1, 1)))
         cons = [draw(S["bool_recipe"](nb, ni, 3, lits)) for _ in range(nc)]
-        return dict(**{"class": "enum"}, decls=decls, constraints=cons)
+        share = draw(st.integers(0, 2)) == 0
+        if share:
+            # later constraints that extend a sum / conjunction which an earlier constraint already contains
+            # (`total = x + y; ensure(total == 5); total += z; ensure(total == 8)` in user code)
+            for _ in range(draw(st.integers(1, 3))):
+                ints = [e for c in cons for e in subrecipes(c, ("add", "sub"))]
+                bools = [e for c in cons for e in subrecipes(c, ("and", "or", "xor"))]
+                if ints and (not bools or draw(st.booleans())):
+                    e = ints[draw(st.integers(0, len(ints) - 1))]
+                    t = ["ivar", draw(st.integers(0, ni - 1))] if ni and draw(st.booleans()) else ["ilit", draw(lits)]
+                    u = ["ivar", draw(st.integers(0, ni - 1))] if ni and draw(st.booleans()) else ["ilit", draw(lits)]
+                    cons.append([draw(st.sampled_from(["eq", "ne", "le", "ge"])),
+                                 [draw(st.sampled_from(["add", "sub"])), e, t], u])
+                elif bools:
+                    e = bools[draw(st.integers(0, len(bools) - 1))]
+                    t = ["bvar", draw(st.integers(0, nb - 1))] if nb else ["blit", draw(st.booleans())]
+                    cons.append([draw(st.sampled_from(["and", "or", "xor"])), e, t])
+        return dict(**{"class": "enum"}, decls=decls, constraints=cons, share=share)
 
     @st.composite
     def sat_wide(draw):
